@@ -184,7 +184,13 @@ func forceGroups(t *rapid.T, ty *desc.T) {
 			if f.Tags["valid"] == "" {
 				f.Tags["valid"] = item
 				// a member may carry rules of its own in front of (or behind) the group rule: it stays a member
-				switch rapid.IntRange(0, 7).Draw(t, "ownRule") {
+				own := rapid.IntRange(0, 7).Draw(t, "ownRule")
+				if f.T.K == "ptr" && own >= 4 {
+					// (a value rule on a pointer member echoes the ADDRESS, which differs from one execution
+					// to the next: checks that compare two executions of a call would see a difference)
+					own = 0
+				}
+				switch own {
 				case 1:
 					f.Tags["valid"] = "required," + item
 				case 2:
